@@ -2,6 +2,7 @@ package handshake
 
 import (
 	"fmt"
+	"strings"
 	"testing"
 
 	clienttypes "github.com/cosmos/ibc-go/v11/modules/core/02-client/types"
@@ -522,6 +523,85 @@ func (w *W) junk(r *hx.Rng) *Op {
 	return o
 }
 
+// wrongState returns handshake messages that carry an honest, currently valid proof of the counterparty
+// end but are addressed to an end that is NOT in the state the handler expects (in particular CLOSED ends
+// reached from INIT, TRYOPEN or OPEN), plus replays of already accepted handshake messages for ends that
+// have been closed since.  Every one of them must be rejected and must leave the end as it is.
+func (w *W) wrongState(r *hx.Rng, accepted []*Op) []*Op {
+	var out []*Op
+	add := func(o *Op, tag string) {
+		o.Tag = tag
+		out = append(out, o)
+	}
+	for c := 0; c < 2; c++ {
+		ochans := w.chans(1 - c)
+		for _, ch := range w.chans(c) {
+			if len(ch.ConnectionHops) != 1 || ch.ConnectionHops[0] == "connection-localhost" {
+				continue
+			}
+			from := fmt.Sprintf("%d", int32(ch.State))
+			for _, oc := range ochans {
+				namesMe := oc.Counterparty.ChannelId == ch.ChannelId && oc.Counterparty.PortId == ch.PortId
+				iName := ch.Counterparty.ChannelId == oc.ChannelId && ch.Counterparty.PortId == oc.PortId
+				if !namesMe && !iName {
+					continue
+				}
+				// ack: expects INIT here and TRYOPEN there
+				if ch.State != chantypes.INIT && namesMe {
+					add(w.mkChanAck(c, ch.PortId, ch.ChannelId, oc.ChannelId), "wrong-state:ack-on-"+from)
+				}
+				// confirm: expects TRYOPEN here and OPEN there
+				if ch.State != chantypes.TRYOPEN && iName {
+					add(w.mkChanProofStep("chan_confirm", c, ch.PortId, ch.ChannelId), "wrong-state:confirm-on-"+from)
+				}
+				// close-confirm on an already CLOSED end
+				if ch.State == chantypes.CLOSED && iName {
+					add(w.mkChanProofStep("chan_close_confirm", c, ch.PortId, ch.ChannelId), "wrong-state:close-confirm-on-"+from)
+				}
+				// try against a counterparty end that is no longer INIT
+				if ch.State != chantypes.INIT {
+					if myConn, ok := w.getConn(c, ch.ConnectionHops[0]); ok && myConn.Counterparty.ConnectionId != "" {
+						add(w.mkChanTry(r, 1-c, myConn.Counterparty.ConnectionId, ch.PortId, ch.ChannelId), "wrong-state:try-for-"+from)
+					}
+				}
+			}
+			if ch.State == chantypes.CLOSED {
+				add(&Op{Kind: "chan_close_init", C: c, Port: ch.PortId, Chan: ch.ChannelId}, "wrong-state:close-init-on-4")
+				for _, a := range accepted {
+					if a.C == c && a.Port == ch.PortId && a.Chan == ch.ChannelId && (a.Kind == "chan_ack" || a.Kind == "chan_confirm") {
+						d := *a
+						add(&d, "replay-after-close:"+a.Kind)
+					}
+				}
+			}
+		}
+		other := w.conns(1 - c)
+		for _, ic := range w.conns(c) {
+			if ic.Id == "connection-localhost" {
+				continue
+			}
+			from := fmt.Sprintf("%d", int32(ic.State))
+			for _, oc := range other {
+				if oc.Counterparty.ConnectionId == ic.Id && ic.State != conntypes.INIT {
+					add(w.mkConnAck(c, ic.Id, oc.Id), "wrong-state:conn-ack-on-"+from)
+				}
+				if ic.Counterparty.ConnectionId == oc.Id && ic.State != conntypes.TRYOPEN {
+					add(w.mkConnConfirm(c, ic.Id), "wrong-state:conn-confirm-on-"+from)
+				}
+			}
+			if ic.State != conntypes.INIT {
+				for _, a := range accepted {
+					if a.C == c && a.Conn == ic.Id && (a.Kind == "conn_ack" || a.Kind == "conn_confirm") && r.Chance(1, 3) {
+						d := *a
+						add(&d, "replay-after-open:"+a.Kind)
+					}
+				}
+			}
+		}
+	}
+	return out
+}
+
 // ---- history driver ------------------------------------------------------------------------------
 
 func famHistories(t *testing.T, r *hx.Rng, o *hx.Out, nh int) {
@@ -532,6 +612,9 @@ func famHistories(t *testing.T, r *hx.Rng, o *hx.Out, nh int) {
 		var ops []any
 		var outs []any
 		var done []*Op
+		var accepted []*Op
+		// in a third of the histories ends are closed early and often, and wrong-state deliveries dominate
+		closeMode := i%3 == 0
 		maxConns := 1 + r.Intn(3)
 		maxChans := 1 + r.Intn(4)
 		pMut := 1 + r.Intn(4) // of 10
@@ -555,6 +638,13 @@ func famHistories(t *testing.T, r *hx.Rng, o *hx.Out, nh int) {
 			p["ok"] = ok
 			outs = append(outs, p)
 			done = append(done, op)
+			if ok {
+				switch op.Kind {
+				case "chan_ack", "chan_confirm", "conn_ack", "conn_confirm":
+					cp := *op
+					accepted = append(accepted, &cp)
+				}
+			}
 		}
 		needsUpdate0 := func(op *Op) (string, bool) {
 			switch op.Kind {
@@ -603,6 +693,53 @@ func famHistories(t *testing.T, r *hx.Rng, o *hx.Out, nh int) {
 					Delay: ic.DelayPeriod, Proof: Prf{IsGarbage: true, Garbage: []byte{0x01}}, PH: clienttypes.NewHeight(w.rev(c), 2), Tag: "loopback-try"}
 			case len(pendSteps) > 0 && r.Chance(1, 2):
 				op = pendSteps[r.Intn(len(pendSteps))]
+			case r.Chance(1, 9) || (closeMode && r.Chance(1, 4)):
+				ws := w.wrongState(r, accepted)
+				if len(ws) == 0 {
+					continue
+				}
+				// pick a tag class uniformly, then an op, so that rare classes are not drowned
+				byTag := map[string][]*Op{}
+				var tags []string
+				for _, x := range ws {
+					if _, ok := byTag[x.Tag]; !ok {
+						tags = append(tags, x.Tag)
+					}
+					byTag[x.Tag] = append(byTag[x.Tag], x)
+				}
+				// channel classes three times out of four (the connection state space is small)
+				var chTags []string
+				for _, tg := range tags {
+					if !strings.Contains(tg, "conn") {
+						chTags = append(chTags, tg)
+					}
+				}
+				if len(chTags) > 0 && r.Chance(3, 4) {
+					tags = chTags
+				}
+				xs := byTag[tags[r.Intn(len(tags))]]
+				op = xs[r.Intn(len(xs))]
+			case closeMode && r.Chance(1, 8):
+				// close some end that is not CLOSED yet, whatever its state (INIT, TRYOPEN, OPEN)
+				var cands []*Op
+				for _, x := range cl {
+					if x.Kind == "chan_close_init" || x.Kind == "chan_close_confirm" {
+						cands = append(cands, x)
+					}
+				}
+				for c := 0; c < 2; c++ {
+					for _, ch := range w.chans(c) {
+						if ch.State != chantypes.CLOSED && len(ch.ConnectionHops) == 1 {
+							if mc, ok := w.getConn(c, ch.ConnectionHops[0]); ok && mc.State == conntypes.OPEN {
+								cands = append(cands, &Op{Kind: "chan_close_init", C: c, Port: ch.PortId, Chan: ch.ChannelId, Tag: "valid"})
+							}
+						}
+					}
+				}
+				if len(cands) == 0 {
+					continue
+				}
+				op = cands[r.Intn(len(cands))]
 			case roll < 34 && len(cs)+len(hs) > 0:
 				all := append(append([]*Op{}, cs...), hs...)
 				if len(hs) > 0 && r.Chance(1, 2) {
@@ -654,7 +791,7 @@ func famHistories(t *testing.T, r *hx.Rng, o *hx.Out, nh int) {
 					w.mutate(r, op)
 				}
 			}
-			if op.Tag == "valid" {
+			if op.Tag == "valid" || strings.HasPrefix(op.Tag, "wrong-state:") {
 				if cl, ok := needsUpdate(op); ok && r.Chance(9, 10) {
 					run(&Op{Kind: "update", C: op.C, Client: cl, Tag: "before-valid"})
 					op = w.refresh(op)
